@@ -194,12 +194,12 @@ impl SseVector for __m128 {
 
     #[inline(always)]
     unsafe fn load_partial_lo_complex(ptr: *const Complex<Self::ScalarType>) -> Self {
-        _mm_castpd_ps(_mm_load_sd(ptr as *const f64))
+        _mm_castpd_ps(_mm_set_sd((ptr as *const f64).read_unaligned()))
     }
 
     #[inline(always)]
     unsafe fn load1_complex(ptr: *const Complex<Self::ScalarType>) -> Self {
-        _mm_castpd_ps(_mm_load1_pd(ptr as *const f64))
+        _mm_castpd_ps(_mm_set1_pd((ptr as *const f64).read_unaligned()))
     }
 
     #[inline(always)]
@@ -209,12 +209,13 @@ impl SseVector for __m128 {
 
     #[inline(always)]
     unsafe fn store_partial_lo_complex(ptr: *mut Complex<Self::ScalarType>, data: Self) {
-        _mm_storel_pd(ptr as *mut f64, _mm_castps_pd(data));
+        (ptr as *mut f64).write_unaligned(_mm_cvtsd_f64(_mm_castps_pd(data)));
     }
 
     #[inline(always)]
     unsafe fn store_partial_hi_complex(ptr: *mut Complex<Self::ScalarType>, data: Self) {
-        _mm_storeh_pd(ptr as *mut f64, _mm_castps_pd(data));
+        let data = _mm_castps_pd(data);
+        (ptr as *mut f64).write_unaligned(_mm_cvtsd_f64(_mm_unpackhi_pd(data, data)));
     }
 
     #[inline(always)]
